@@ -46,7 +46,7 @@ def _span(bi):
 
 
 def batches(tier):
-    k = 1 if tier == 'quick' else 12
+    k = 1 if tier == 'quick' else 40
     out = [{'name': 'nofault', 'n': 4000 * k, 'profile': 'c05-nofault'},
            {'name': 'faults', 'n': 20000 * k, 'profile': 'c05'}]
     nb = 6 if tier == 'quick' else len(BASES)
